@@ -19,6 +19,17 @@ Theorem C15_age_test : forall period operand now ts c, 0 < period -> ts <= now -
 Proof. exact age_test_spec. Qed.
 Print Assumptions C15_age_test.
 
+(* a timestamp in the future (no period has elapsed): the measured value is negative, so N and +N
+   are false and -N is true whatever N is *)
+Theorem C15_future_value : forall period now ts, 0 < period -> now < ts ->
+  age_units period now ts = - ((ts - now) / 1000000000 / period) - 1 /\ age_units period now ts < 0.
+Proof. exact age_future. Qed.
+Theorem C15_future_test : forall period operand now ts c, 0 < period -> now < ts ->
+  parse_cv_plain operand = Some c ->
+  age_test period operand now ts = Some (match c with LessThan _ => true | _ => false end).
+Proof. exact age_test_future. Qed.
+Print Assumptions C15_future_test.
+
 (* -newer / -newerXY: strictly later, at full resolution; which timestamps are compared (entry's X,
    reference file's Y) is fixed by the correspondence check *)
 Theorem C15_newer_strict : forall e r, newer e r = true <-> r < e.
